@@ -90,7 +90,7 @@ func c15Value(r *rand.Rand) *canon.Node {
 	s := func(x string) *canon.Node { return canon.St(x) }
 	switch r.Intn(14) {
 	case 0:
-		return s("{\"a\":\n 1}") // multi-line JSON
+		return s(gen.Pick(r, []string{"{\"a\":\n 1}", "[{\"a\":\n 1}]", "[{\"a\": 1},\n {\"b\": 2}]", "[\n1,\n2\n]", "{\"a\": [\n{\"b\": 1}\n]}", "[{\"single\": \"line\"}]"})) // multi-line JSON
 	case 1:
 		return s("{\"key\": \"va¬lue\",\n  \"list\": [1, 2]\n}")
 	case 2:
